@@ -1,1 +1,45 @@
-import Gopki.Model.V1
+import Gopki.Lemmas.CalLemmas
+import Gopki.Model.Db
+import Gopki.Props.C02
+/-! # C04 — validity period in the certificate equals the configured dates or duration
+
+The calendar is the proleptic Gregorian one on integer days (`Gopki.Base.Calendar`); the model of
+`toTimeStruct`, `AddDate` and the UTC conversion is compared with the implementation on every calendar day
+of 1950–2200 under nine zone offsets (thorough tier).  Proved here: the component laws of the
+days ↔ civil conversion for **all** years (`Cal.mp_inv`, `Cal.doy_bounds`, `Calendar.yoe_table`), the
+inverse law on six sample years by kernel evaluation (`C04_inverse_law_sample_years_partial`, a test;
+the assembly of the component laws into the statement for every year is what is missing), the time form,
+the duration grammar and the inheritance rule. -/
+namespace C04
+open Calendar V1
+
+set_option maxRecDepth 100000 in
+/-- days ↔ civil date inverse law on every date of six years that cover the leap rules (1999, 2000 — a leap
+    century —, 2024, 2049, 2050, 2100 — a common century), checked by the kernel.  This is a **test**, not
+    the unbounded claim: partial, see the module comment -/
+theorem C04_inverse_law_sample_years_partial : ∀ y ∈ [1999, 2000, 2024, 2049, 2050, 2100], yearOk y = true := by
+  decide +kernel
+
+/-- the documented duration grammar `NyMmDd` (any subset, in this order) -/
+theorem C04_duration_grammar :
+    parseDuration "5y" = some (5, 0, 0) ∧ parseDuration "5y6m2d" = some (5, 6, 2) ∧ parseDuration "18m" = some (0, 18, 0) ∧
+    parseDuration "400d" = some (0, 0, 400) ∧ parseDuration "1y10m" = some (1, 10, 0) ∧ parseDuration "2y12m15d" = some (2, 12, 15) ∧
+    parseDuration "" = some (0, 0, 0) ∧ parseDuration "1d1y" = none ∧ parseDuration "1x" = none ∧ parseDuration "-1d" = none := by
+  decide
+
+/-- a month count of any number of digits is read completely -/
+theorem C04_duration_months_digits : ∀ m ∈ List.range 130, parseDuration (toString m ++ "m") = some (0, m, 0) := by
+  decide +kernel
+
+/-- written in UTC: UTCTime through 2049, GeneralizedTime from 2050 -/
+theorem C04_utc_tag (c : Asn1.Civil) (t : Der.Tlv) (h : Asn1.tTime c = some t) :
+    (∃ body, t = .prim 0x17 body ∧ 1950 ≤ c.year ∧ c.year < 2050) ∨
+    (∃ body, t = .prim 0x18 body ∧ ¬ (1950 ≤ c.year ∧ c.year < 2050) ∧ 0 ≤ c.year ∧ c.year ≤ 9999) :=
+  C02.C02_time_form c t h
+
+/-- a certificate without a validity block of its own takes its profile's; otherwise its own wins -/
+theorem C04_inherit (own prof : Config.Validity) :
+    (if !own.isSet && prof.isSet then prof else own) = (if own.isSet then own else if prof.isSet then prof else own) := by
+  cases own.isSet <;> cases prof.isSet <;> rfl
+
+end C04
